@@ -105,6 +105,24 @@ def step (line : String) : String :=
       | some (k, []) => showTree (parse true (serialize (form == "1") k))
       | _ => "bad-op"
     | none => "bad-op"
+  | "rtr" :: form :: _salt :: n :: ts =>
+    -- same round trip, the harness backs the files with readers of other shapes (data+EOF, one byte at a time)
+    match n.toNat? with
+    | some n =>
+      match parseKids n ts with
+      | some (k, []) => showTree (parse true (serialize (form == "1") k))
+      | _ => "bad-op"
+    | none => "bad-op"
+  | "rt2" :: form :: n :: ts =>
+    -- serialise, parse, serialise the parsed tree again, parse
+    match n.toNat? with
+    | some n =>
+      match parseKids n ts with
+      | some (k, []) =>
+        let f := form == "1"
+        showTree (parse true (serialize f (parse true (serialize f k))))
+      | _ => "bad-op"
+    | none => "bad-op"
   | "parts" :: ts =>
     match parseParts ts with
     | some ps => showTree (parse true ps)
